@@ -30,6 +30,26 @@ OPTIONS = {
 HEADER_STYLES = {"file-style", "commit-style", "hunk-header-style"}
 BLAME_INPUT = b"ea82f2d0 (Dan Davison       2021-08-22 18:20:19 -0700 120) locBlame code\n"
 BLAME_OPTS = {"blame-code-style": "locBlame", "blame-separator-style": "│"}
+# emphasis / non-emphasis styles and the line styles next to them, in a file of a highlighted language:
+# option -> (token painted with it, marker of its row, which occurrence in the row)
+INPUT_E = (b"diff --git a/locFile.rs b/locFile.rs\nindex 1..2 100644\n--- a/locFile.rs\n+++ b/locFile.rs\n"
+           b"@@ -1,6 +1,6 @@ locFrag\n let locZero = 1;\n-let locGone = 0;\n let locMid = 1;\n-let locKeepM = locOld(1);\n"
+           b"+let locKeepM = locNew(1);\n let locZtwo = 2;\n+let locAdded = 3;\n")
+E_OPTIONS = {
+    "minus-emph-style": ("locOld", "locOld", "first"),
+    "minus-non-emph-style": ("locKeepM", "locOld", "first"),
+    "plus-emph-style": ("locNew", "locNew", "first"),
+    "plus-non-emph-style": ("locKeepM", "locNew", "last"),
+    "minus-style": ("locGone", "locGone", "first"),
+    "plus-style": ("locAdded", "locAdded", "first"),
+    "zero-style": ("locZero", "locZero", "first"),
+}
+E_DECO = ["--file-decoration-style", "none", "--hunk-header-decoration-style", "none", "--width", "160"]
+E_CONTEXTS = {
+    "plain": (["--no-gitconfig", "--syntax-theme", "none"] + E_DECO, False),
+    "theme": (["--no-gitconfig", "--syntax-theme", "Monokai Extended"] + E_DECO, True),
+    "sbs": (["--no-gitconfig", "--syntax-theme", "Monokai Extended", "--side-by-side"] + E_DECO, True),
+}
 BASE = ["--no-gitconfig", "--syntax-theme", "none", "--width", "80", "--file-decoration-style", "none",
         "--hunk-header-decoration-style", "none", "--commit-decoration-style", "none", "--max-line-distance", "0"]
 
@@ -44,6 +64,8 @@ def lex_word(w):
         return {"k": "color", "v": [BRIGHT[x.replace("-", "")]]}
     if x == "normal":
         return {"k": "color", "v": []}
+    if x == "syntax":
+        return {"k": "color", "v": [1000]}
     if re.fullmatch(r"\d{1,3}", x) and int(x) < 256:
         return {"k": "color", "v": [int(x)]}
     m = re.fullmatch(r"#([0-9a-f]{2})([0-9a-f]{2})([0-9a-f]{2})", x)
@@ -75,6 +97,41 @@ def observe(opt, style, truecolor):
             # index in cells: graphemes are single characters here
             g, fg, bg, at, lk = cs[i]
             amap = {"bold": 1, "dim": 2, "italic": 3, "ul": 4, "blink": 5, "reverse": 7, "hidden": 8, "strike": 9}
+            return r, {"fg": list(fg), "bg": list(bg), "at": sorted(amap[a] for a in at), "row": b}
+    return r, {"fg": [-1], "bg": [-1], "at": [], "row": b""}
+
+
+def companion(ws):
+    """The line style next to an emphasis / non-emphasis style under test: the same string with the first colour
+    flipped between `normal` and `syntax`, so that the two paint alike wherever that is possible."""
+    for i, w in enumerate(ws):
+        try:
+            k = lex_word(w)
+        except ValueError:
+            continue
+        if k["k"] == "color":
+            return ws[:i] + ["normal" if w.lower() == "syntax" else "syntax"] + ws[i + 1:]
+    return ["syntax"] + ws
+
+
+def observe_e(opt, ws, ctx, truecolor="always", comp=True):
+    tok, marker, which = E_OPTIONS[opt]
+    base, theme = E_CONTEXTS[ctx]
+    args = base + ["--true-color", truecolor, f"--{opt}", " ".join(ws)]
+    if "emph" in opt and comp:
+        args += [f"--{opt.split('-')[0]}-style", " ".join(companion(ws))]
+    r = core.run_delta(args, INPUT_E, allow_usage_error=True)
+    if r.code != 0:
+        return r, None
+    amap = {"bold": 1, "dim": 2, "italic": 3, "ul": 4, "blink": 5, "reverse": 7, "hidden": 8, "strike": 9}
+    for b in r.out.split(b"\n"):
+        cs, pen = lexer.cells(lexer.tokens(b))
+        text = "".join(c[0] for c in cs)
+        if marker not in text:
+            continue
+        i = text.find(tok) if which == "first" else text.rfind(tok)
+        if i >= 0 and len(text) == len(cs):
+            g, fg, bg, at, lk = cs[i]
             return r, {"fg": list(fg), "bg": list(bg), "at": sorted(amap[a] for a in at), "row": b}
     return r, {"fg": [-1], "bg": [-1], "at": [], "row": b""}
 
@@ -139,8 +196,22 @@ def run(tier):
             ws = [w for w in ws if w.strip("\"'").lower() != "underline"] or ["bold"]
         jobs.append((ws, opt, "always", i % 6 == 0))
 
+    # emphasis / non-emphasis / line styles of paired and unpaired lines: with and without a syntax theme, unified and
+    # side-by-side, with `syntax` as a colour word; the neighbouring line style paints alike where it can
+    evocab = ["red", "#0a141e", "normal", "syntax", "bold", "italic", "7"]
+    estrings = [list(t) for n in range(1, 4) for t in itertools.product(evocab, repeat=n)]
+    for i, ws in enumerate(estrings):
+        opts = list(E_OPTIONS) if tier == "thorough" else [list(E_OPTIONS)[i % len(E_OPTIONS)], list(E_OPTIONS)[(i // 7) % 4]]
+        for opt in dict.fromkeys(opts):
+            for ctx in E_CONTEXTS:
+                for comp in ((True, False) if "emph" in opt else (False,)):    # (the line style left at its default, too)
+                    jobs.append((ws, opt, "always" if (i + len(ctx)) % 3 else "never", ("ctx", ctx, comp)))
+
     def one(job):
         ws, opt, tc, rt = job
+        if isinstance(rt, tuple):
+            r, obs = observe_e(opt, ws, rt[1], tc, rt[2])
+            return r, obs, 2
         if opt in BLAME_OPTS:
             rt = False
         style = " ".join(ws)
@@ -167,7 +238,7 @@ def run(tier):
             continue
         events.append({"run": i, "ws": [lex_word(w) for w in ws], "rejected": rejected,
                        "fg": obs["fg"] if obs else [], "bg": obs["bg"] if obs else [], "at": obs["at"] if obs else [],
-                       "exact": tc == "always", "rt": rtv})
+                       "exact": tc == "always", "rt": rtv, "theme": isinstance(rt, tuple) and E_CONTEXTS[rt[1]][1]})
     if notfound > len(jobs) // 50:
         raise core.ToolError(f"the painted token was not found in {notfound} outputs")
     # decoration styles: letter case and quoting must not matter (relational: same rendering as the lower-case form)
@@ -220,7 +291,11 @@ def run(tier):
     for f in failed:
         ws, opt, tc, rt = jobs[f["run"]]
         r, obs, rtv = res[f["run"]]
-        V.violation(f"{f['why']}:{opt}:{tc}:{' '.join(ws)}", f"{f['why']}: --{opt} '{' '.join(ws)}' (true-color {tc}) rendered as "
+        where = ""
+        if isinstance(rt, tuple):
+            where = f", context {rt[1]}" + (f", --{opt.split('-')[0]}-style '{' '.join(companion(ws))}'" if rt[2] and "emph" in opt else "")
+        V.violation(f"{f['why']}:{opt}:{tc}:{' '.join(ws)}" + (f":{rt[1]}:{rt[2]}" if isinstance(rt, tuple) else ""),
+                    f"{f['why']}: --{opt} '{' '.join(ws)}' (true-color {tc}{where}) rendered as "
                     f"{ {k: obs[k] for k in ('fg', 'bg', 'at')} if obs else 'rejected: ' + r.err[:100].decode('utf-8', 'replace')}",
                     {"words": ws, "option": opt, "run": r.to_json()})
     rc = V.finish()
@@ -231,13 +306,16 @@ def run(tier):
                 "<= 5 words over 8 word kinds); all 256 palette numbers in each slot; seeded #rrggbb pairs; seeded strings over all "
                 "colour names (both bright spellings) and attributes with random letter case, quoting and no-op words; eight "
                 "style-typed options; 24-bit and 256-colour mode; --show-config round trip on a subset",
-        "options": sorted(OPTIONS),
+        "options": sorted(set(OPTIONS) | set(E_OPTIONS) | set(BLAME_OPTS)),
+        "contexts": "header / line / number styles: unified, no theme; emphasis, non-emphasis and line styles: {no theme, Monokai Extended, "
+                    "Monokai Extended + side-by-side} on a .rs file, with `syntax` as a colour word and a neighbouring line style that "
+                    "paints alike",
         "samples": [{"style": " ".join(jobs[i][0]), "option": jobs[i][1], "observed": {k: res[i][1][k] for k in ("fg", "bg", "at")}
                      if res[i][1] else None} for i in (3, 700, len(jobs) - 1)],
         "exhaustive": True,
     }, time.time() - t0, len(V.violations),
         ["the 24-bit -> 256-colour mapping is not modelled: in 256-colour mode a direct colour need only come out as a palette colour",
-         "'auto', 'syntax', 'omit' and 'raw' are not enumerated (they depend on defaults / suppress the element)"])
+         "'auto', 'omit' and 'raw' are not enumerated (they depend on defaults / suppress the element); 'syntax' only for hunk-line styles"])
     return rc
 
 
